@@ -70,6 +70,29 @@ let rec shake_hist (rate128 : bool) st args acc =
      | _ -> raise Unknown)
   | _ -> raise Unknown
 
+
+(* exhaustive sweeps: checksum of the outputs of a scalar function over [lo, hi) *)
+let cks h v = (h * 1000003 + (v land 0x3FFFFFFF)) mod 2147483647
+let sweep_unary (f : z -> int list res) lo hi =
+  let h = ref 7 and pan = ref 0 in
+  for a = lo to hi - 1 do
+    match f (zi a) with
+    | Ok vs -> List.iter (fun v -> h := cks !h (v + 1073741824)) vs
+    | _ -> incr pan; h := cks !h 1
+  done;
+  Ok [OInt (zi !h); OInt (zi !pan)]
+let pair_ints = function Ok (a, b) -> Ok [int_of_z a; int_of_z b] | Panic -> Panic | OutOfFuel -> OutOfFuel
+let one_int = function Ok a -> Ok [int_of_z a] | Panic -> Panic | OutOfFuel -> OutOfFuel
+let sweep fn copy fixed lo hi =
+  match fn with
+  | "power2round" -> sweep_unary (fun a -> pair_ints (power2round a)) lo hi
+  | "decompose" -> let g = g88_of copy in sweep_unary (fun a -> pair_ints (decompose g a)) lo hi
+  | "caddq" -> sweep_unary (fun a -> one_int (caddq a)) lo hi
+  | "reduce32" -> sweep_unary (fun a -> one_int (reduce32 a)) lo hi
+  | "use_hint" -> let g = g88_of copy in sweep_unary (fun a -> one_int (use_hint g a (zi fixed))) lo hi
+  | "make_hint" -> let g = g88_of copy in sweep_unary (fun a -> one_int (make_hint g a (zi fixed))) lo hi
+  | _ -> raise Unknown
+
 let octx = function ABytes b -> Some b | AInt _ -> None | _ -> failwith "ctx"
 
 let dispatch (fn : string) (copy : string) (a : arg list) : out list res =
@@ -236,5 +259,8 @@ let dispatch (fn : string) (copy : string) (a : arg list) : out list res =
     let n = geti outlen in shake256 (zeros (int_of_z n)) n (getb inp) (zlen (getb inp)) >>= fun o -> ret [ob o]
   | "shake256_hist", ops -> shake_hist false kinit ops [] >>= fun outs -> ret outs
   | "shake128_hist", ops -> shake_hist true kinit ops [] >>= fun outs -> ret outs
+  | "sweep", [AInts [fnid]; fixed; lo; hi] ->
+    let names = [| "power2round"; "decompose"; "caddq"; "reduce32"; "use_hint"; "make_hint" |] in
+    sweep names.(int_of_z fnid) copy (int_of_z (geti fixed)) (int_of_z (geti lo)) (int_of_z (geti hi))
   | "keccakf", [st] -> keccakf (getl st) >>= fun o -> ret [ol o]
   | _ -> raise Unknown
